@@ -4,15 +4,16 @@ Props/C13.lean — every input is either accepted or rejected with a documented 
 The full property is FALSE for the model: outcomes of kind `internal` (an exception other than ParseError /
 TranslationError escaping `Program.process`) exist.  History of the witnesses: an INCLUDE of a missing file
 (repaired, see Props/C19.lean `include_missing_diag`); a program that runs past address 65535 (`ORG $FFFF`,
-`NOP`, `NOP`; repaired by fix 0addc5e, now `C13_formerWitness_diag`).  After fixes 0addc5e, dfad397, 145359a
-exactly two sources are left, and that is a theorem (`assemble_internal_only_from_expand`):
-  (1) more than 64 nested INCLUDE files (the fuel of `expand`, Python: RecursionError) — `C13_deepWitness`;
-  (2) a program of more than 65536 statements in which a PCR offset expression subtracts a label from a symbol
-      that is neither a number nor an address: `calculate_address_offset` takes the STATEMENT INDEX of the label
-      for the constant — `C13_witness` (70002 lines), `C13_witness_internal`.
+`NOP`, `NOP`; repaired by fix 0addc5e, now `C13_formerWitness_diag`); a program of more than 65536 statements in
+which a PCR offset expression subtracts a label from a symbol that is neither a number nor an address
+(`calculate_address_offset` took the STATEMENT INDEX of the label for the constant; repaired by fix 9045646, now
+`C13_witness_diag`, 70002 lines).
+After fixes 0addc5e, dfad397, 145359a, 9045646 exactly ONE source is left, and that is a theorem
+(`assemble_internal_iff_expand`, `assemble_internal_only_from_expand_fuel`): more than 64 nested INCLUDE files
+(the fuel of `expand`, standing for Python's RecursionError) — `C13_deepWitness`.
 What holds, and is proved here: no stage of `assemble` diverges, the line parser never fails with anything but
-a diagnostic, and C13 itself for every input whose INCLUDE expansion succeeds with at most 65536 statements
-(`C13_of_expand_ok`).
+a diagnostic, and C13 itself for every input whose INCLUDE expansion does not run out of its nesting budget
+(`C13_of_expand_ne_internal`), in particular for every program without INCLUDE, of any length (`C13_no_include`).
 -/
 import CoCoVerif.Lemmas.LayoutFix
 import CoCoVerif.Lemmas.LayoutEval
@@ -83,44 +84,43 @@ def C13_deepWitness : List Str := [deepLine 63] ++ []
 theorem C13_deepWitness_internal : assemble fsDeep C13_deepWitness = .internal :=
   deep63_internal (rest := []) rfl
 
-/-- witness 2 (FINDING, no INCLUDE involved): 70000 times ` ORG 0`, then `FAR LEAX X-FAR,PCR`, then `X EQU 1,2`.
-`X` is a symbol that is neither a number nor an address, so `X-FAR` stays an address expression; the size loop
-sees no constant in it and picks the 8-bit PCR form; `fix_addresses` then computes the "target" as
-`address(FAR) − 70000` (the statement index of `FAR` is taken for the constant), and
-`NumericValue(70000 − 0 − 3, size_hint=2)` raises a ValueTypeError that nothing catches.
-(With 65538 instead of 70000 filler lines the program is still accepted, with 65539 it fails.) -/
+/-- REPAIRED (formerly witness 2, `C13_witness_internal`): 70000 times ` ORG 0`, then `FAR LEAX X-FAR,PCR`, then
+`X EQU 1,2`.  `X` is a symbol that is neither a number nor an address, so `X-FAR` stays an address expression.
+`calculate_address_offset` used to take the STATEMENT INDEX of `FAR` (70000) for the constant, and
+`NumericValue(70000 − 0 − 3, size_hint=2)` raised a ValueTypeError that nothing caught.  Now `X-FAR` is reported
+as an unresolved expression. -/
 def C13_witness : List Str := List.replicate 70000 hugeOrg ++ [hugeFar, hugeX]
 
 /-- ... whatever the host files are -/
-theorem C13_witness_internal' (fs : Files) : assemble fs C13_witness = .internal := huge_internal fs 70000 rfl
+theorem C13_witness_diag' (fs : Files) : assemble fs C13_witness = .diag := huge_diag fs 70000 rfl
 
-theorem C13_witness_internal : assemble [] C13_witness = .internal := C13_witness_internal' []
+theorem C13_witness_diag : assemble [] C13_witness = .diag := C13_witness_diag' []
 
 theorem C13_witness_length : C13_witness.length = 70002 := by
   unfold C13_witness; rw [List.length_append, List.length_replicate]; rfl
 
+/-- C13 at full strength is false, through the deep-INCLUDE witness (the 70002-line witness used until fix
+9045646 is now a diagnostic, `C13_witness_diag`).  The ONLY remaining internal outcome is the model's recursion
+fuel in `expand` (64 nested INCLUDE files) standing for Python's RecursionError: `assemble_internal_iff_expand`
+below shows that nothing else can produce `internal`. -/
 theorem C13_Statement_false : ¬ C13_Statement := by
-  intro h
-  rcases h [] C13_witness with ⟨a, ha⟩ | ha <;> rw [C13_witness_internal] at ha <;> cases ha
-
-/-- the same from the deep-INCLUDE witness alone -/
-theorem C13_Statement_false_deep : ¬ C13_Statement := by
   intro h
   rcases h fsDeep C13_deepWitness with ⟨a, ha⟩ | ha <;> rw [C13_deepWitness_internal] at ha <;> cases ha
 
+/-- (kept under its old name) -/
+theorem C13_Statement_false_deep : ¬ C13_Statement := C13_Statement_false
+
 /-! ### where internal errors can still come from -/
 
-/-- **C13, the main positive result** (after fixes 0addc5e, dfad397, 145359a).  An internal error of
-`Program.process` has one of two causes: the INCLUDE expansion ran out of its nesting budget (more than 64
-nested files; Python: RecursionError), or the expanded program has more than 65536 statements (see
-`C13_witness` above for why that bound is there).  Every other stage -- symbol table, `resolve_symbols`,
-`translate`, the PCR size loop, address assignment, `fix_addresses`, the final symbol table -- ends in a
-result or in a diagnostic on statements that came out of the parser. -/
-theorem assemble_internal_only_from_expand (fs : Files) (lines : List Str)
+/-- **C13, the main positive result** (after fixes 0addc5e, dfad397, 145359a, 9045646).  An internal error of
+`Program.process` has exactly one cause: the INCLUDE expansion ran out of its nesting budget (more than 64
+nested files; in the model the fuel of `expand`, in Python a RecursionError).  Every other stage -- symbol table,
+`resolve_symbols`, `translate`, the PCR size loop, address assignment, `fix_addresses`, the final symbol table --
+ends in a result or in a diagnostic on statements that came out of the parser, HOWEVER MANY there are.
+(Before fix 9045646 a second cause existed: more than 65536 statements, see `C13_witness`.) -/
+theorem assemble_internal_only_from_expand_fuel (fs : Files) (lines : List Str)
     (h : assemble fs lines = .internal) :
-    ∃ parsed, parseLines lines = .ok parsed ∧
-      (expand fs 64 [] parsed = .internal ∨
-        ∃ ss0, expand fs 64 [] parsed = .ok ss0 ∧ 65536 < ss0.length) := by
+    ∃ parsed, parseLines lines = .ok parsed ∧ expand fs 64 [] parsed = .internal := by
   rcases parseLines_cases lines with ⟨parsed, hp⟩ | hp
   · refine ⟨parsed, hp, ?_⟩
     rw [assemble_eq] at h
@@ -130,39 +130,72 @@ theorem assemble_internal_only_from_expand (fs : Files) (lines : List Str)
     | ok ss0 =>
       rw [he] at h
       dsimp only at h
-      refine Or.inr ⟨ss0, rfl, ?_⟩
-      rcases Nat.lt_or_ge 65536 ss0.length with hlt | hge
-      · exact hlt
-      · exact absurd h (back_ne_internal (expand_parsed hp he) hge)
+      exact absurd h (back_ne_internal (expand_parsed hp he))
     | diag => rw [he] at h; cases h
-    | internal => exact Or.inl rfl
+    | internal => rfl
     | diverged => rw [he] at h; cases h
   · unfold assemble at h
     rw [hp] at h
     cases h
 
+/-- ... and conversely: an INCLUDE expansion that runs out of its budget IS an internal error of the whole run -/
+theorem assemble_internal_of_expand (fs : Files) (lines : List Str) (parsed : List Stmt)
+    (hp : parseLines lines = .ok parsed) (he : expand fs 64 [] parsed = .internal) :
+    assemble fs lines = .internal := by
+  unfold assemble
+  rw [hp]
+  dsimp only
+  rw [he]
+
+/-- the internal errors of `Program.process` are exactly the exhausted INCLUDE nesting budgets -/
+theorem assemble_internal_iff_expand (fs : Files) (lines : List Str) :
+    assemble fs lines = .internal ↔
+      ∃ parsed, parseLines lines = .ok parsed ∧ expand fs 64 [] parsed = .internal :=
+  ⟨assemble_internal_only_from_expand_fuel fs lines,
+   fun ⟨parsed, hp, he⟩ => assemble_internal_of_expand fs lines parsed hp he⟩
+
+/-- the weaker statement that was the headline before fix 9045646 (the second disjunct, "more than 65536
+statements", can no longer occur); kept as a corollary -/
+theorem assemble_internal_only_from_expand (fs : Files) (lines : List Str)
+    (h : assemble fs lines = .internal) :
+    ∃ parsed, parseLines lines = .ok parsed ∧
+      (expand fs 64 [] parsed = .internal ∨
+        ∃ ss0, expand fs 64 [] parsed = .ok ss0 ∧ 65536 < ss0.length) := by
+  obtain ⟨parsed, hp, he⟩ := assemble_internal_only_from_expand_fuel fs lines h
+  exact ⟨parsed, hp, Or.inl he⟩
+
 /-- the contrapositive, in the form "accepted or rejected with a diagnostic": C13 holds for every input whose
-INCLUDE expansion succeeds with at most 65536 statements -/
-theorem C13_of_expand_ok (fs : Files) (lines : List Str) (parsed ss0 : List Stmt)
-    (hp : parseLines lines = .ok parsed) (he : expand fs 64 [] parsed = .ok ss0) (hN : ss0.length ≤ 65536) :
+INCLUDE expansion does not run out of its nesting budget -/
+theorem C13_of_expand_ne_internal (fs : Files) (lines : List Str) (parsed : List Stmt)
+    (hp : parseLines lines = .ok parsed) (he : expand fs 64 [] parsed ≠ .internal) :
     (∃ a, assemble fs lines = .ok a) ∨ assemble fs lines = .diag := by
   cases h : assemble fs lines with
   | ok a => exact Or.inl ⟨a, rfl⟩
   | diag => exact Or.inr rfl
   | internal =>
-    obtain ⟨p', hp', h'⟩ := assemble_internal_only_from_expand fs lines h
+    obtain ⟨p', hp', h'⟩ := assemble_internal_only_from_expand_fuel fs lines h
     rw [hp] at hp'; cases hp'
-    rcases h' with h' | ⟨ss0', h', hlt⟩
-    · rw [he] at h'; cases h'
-    · rw [he] at h'; cases h'; omega
+    exact absurd h' he
   | diverged => exact absurd h (assemble_not_diverged fs lines)
 
-/-- without INCLUDE statements (so whatever the host files are) and with at most 65536 lines: C13 holds -/
-theorem C13_no_include (fs : Files) (lines : List Str) (parsed : List Stmt)
-    (hp : parseLines lines = .ok parsed) (hni : parsed.all (fun s => !s.row.isInclude) = true)
-    (hN : parsed.length ≤ 65536) :
+/-- C13 for every input whose INCLUDE expansion succeeds (the bound `ss0.length ≤ 65536` of the former
+statement is gone; the old form is `C13_of_expand_ok'`) -/
+theorem C13_of_expand_ok (fs : Files) (lines : List Str) (parsed ss0 : List Stmt)
+    (hp : parseLines lines = .ok parsed) (he : expand fs 64 [] parsed = .ok ss0) :
     (∃ a, assemble fs lines = .ok a) ∨ assemble fs lines = .diag :=
-  C13_of_expand_ok fs lines parsed parsed hp (expand_noinclude fs 63 [] parsed hni) hN
+  C13_of_expand_ne_internal fs lines parsed hp (by rw [he]; simp)
+
+/-- the former statement of `C13_of_expand_ok` (with the bound that is no longer needed), a corollary -/
+theorem C13_of_expand_ok' (fs : Files) (lines : List Str) (parsed ss0 : List Stmt)
+    (hp : parseLines lines = .ok parsed) (he : expand fs 64 [] parsed = .ok ss0) (_hN : ss0.length ≤ 65536) :
+    (∃ a, assemble fs lines = .ok a) ∨ assemble fs lines = .diag :=
+  C13_of_expand_ok fs lines parsed ss0 hp he
+
+/-- without INCLUDE statements (so whatever the host files are): C13 holds, for a program of any length -/
+theorem C13_no_include (fs : Files) (lines : List Str) (parsed : List Stmt)
+    (hp : parseLines lines = .ok parsed) (hni : parsed.all (fun s => !s.row.isInclude) = true) :
+    (∃ a, assemble fs lines = .ok a) ∨ assemble fs lines = .diag :=
+  C13_of_expand_ok fs lines parsed parsed hp (expand_noinclude fs 63 [] parsed hni)
 
 theorem parseLines_length_le : ∀ (ls : List Str) (r : List Stmt), parseLines ls = .ok r → r.length ≤ ls.length := by
   intro ls
@@ -182,29 +215,28 @@ theorem parseLines_length_le : ∀ (ls : List Str) (r : List Stmt), parseLines l
     · cases h
     · cases h
 
-/-- C13 for every program of at most 65536 lines without an INCLUDE statement -/
+/-- C13 for every program of at most 65536 lines without an INCLUDE statement (the former statement; the bound
+is no longer needed, see `C13_no_include`) -/
 theorem C13_short_program (fs : Files) (lines : List Str) (parsed : List Stmt)
     (hp : parseLines lines = .ok parsed) (hni : parsed.all (fun s => !s.row.isInclude) = true)
-    (hN : lines.length ≤ 65536) :
+    (_hN : lines.length ≤ 65536) :
     (∃ a, assemble fs lines = .ok a) ∨ assemble fs lines = .diag :=
-  C13_no_include fs lines parsed hp hni (Nat.le_trans (parseLines_length_le lines parsed hp) hN)
+  C13_no_include fs lines parsed hp hni
 
 /-- What holds of C13.  (1)-(4): the PCR loop and the whole assembly never run out of fuel, and parsing fails
-only with a diagnostic.  (5): an internal error comes from the nesting budget of INCLUDE or needs more than 65536
-statements.  (6): C13 itself whenever the INCLUDE expansion succeeds with at most 65536 statements.
-(Findings: `internal` outcomes are reachable in both ways, `C13_deepWitness_internal`, `C13_witness_internal`;
-hence `C13_Statement_false`.) -/
+only with a diagnostic.  (5): an internal error comes from the nesting budget of INCLUDE and from nothing else.
+(6): C13 itself whenever the INCLUDE expansion does not run out of that budget.
+(Finding: that `internal` outcome is reachable, `C13_deepWitness_internal`; hence `C13_Statement_false`.) -/
 theorem C13_partial :
     (∀ ss : List Stmt, pcrLoop (ss.length + 1) ss ≠ .diverged) ∧
     (∀ fs lines, assemble fs lines ≠ .diverged) ∧
     (∀ l, parseLine l ≠ .internal ∧ parseLine l ≠ .diverged) ∧
     (∀ ls, parseLines ls ≠ .internal ∧ parseLines ls ≠ .diverged) ∧
-    (∀ fs lines, assemble fs lines = .internal →
-      ∃ parsed, parseLines lines = .ok parsed ∧
-        (expand fs 64 [] parsed = .internal ∨ ∃ ss0, expand fs 64 [] parsed = .ok ss0 ∧ 65536 < ss0.length)) ∧
-    (∀ fs lines parsed ss0, parseLines lines = .ok parsed → expand fs 64 [] parsed = .ok ss0 →
-      ss0.length ≤ 65536 → (∃ a, assemble fs lines = .ok a) ∨ assemble fs lines = .diag) :=
+    (∀ fs lines, assemble fs lines = .internal ↔
+      ∃ parsed, parseLines lines = .ok parsed ∧ expand fs 64 [] parsed = .internal) ∧
+    (∀ fs lines parsed, parseLines lines = .ok parsed → expand fs 64 [] parsed ≠ .internal →
+      (∃ a, assemble fs lines = .ok a) ∨ assemble fs lines = .diag) :=
   ⟨pcrLoop_not_diverged, assemble_not_diverged, parseLine_no_internal, parseLines_no_internal,
-   assemble_internal_only_from_expand, C13_of_expand_ok⟩
+   assemble_internal_iff_expand, C13_of_expand_ne_internal⟩
 
 end CoCo.Props
